@@ -80,11 +80,13 @@ theorem phi_decreases {cfg : Cfg} (hs : cfg.code.Sound) {s s' : St} {l : Label} 
   have hf := hs.fetch
   have hwd := hs.workerDone
   have hsl := hs.seqLoop
+  have hsp := hs.seqPost
+  have hen := effN_eq hs
   cases l with
-  | fetch w => pardo_cases h => (simp only [hd, hf, hwd] at *; phi_w)
+  | fetch w => pardo_cases h => (simp only [hd, hf, hwd, hen] at *; phi_w)
   | check w => pardo_cases h => phi_w
   | begin w => pardo_cases h => phi_w
-  | fEnd w r => pardo_cases h => (simp only [hsl] at *; phi_w)
+  | fEnd w r => pardo_cases h => (simp only [hsl, hsp, hen] at *; phi_w)
   | egDone w => pardo_cases h => phi_w
   | callerCancel =>
     pardo_cases h =>
@@ -124,7 +126,7 @@ theorem phi_init_le {cfg : Cfg} (hs : cfg.code.Sound) : phi cfg (init cfg) ≤ 4
   unfold init nW
   split
   · by_cases h0 : 0 < cfg.n <;>
-      simp [phi, remaining, idxWeight, hs.seqLoop, wSum, wRank, bit, h0] <;> omega
+      simp [phi, remaining, idxWeight, hs.seqLoop, hs.seqInit, hs.seqPost, effN_eq hs, wSum, wRank, bit, h0] <;> omega
   · simp only [phi, remaining, idxWeight, hs.counterInit, wSum_replicate, wRank_eqs, bit_eqs, Option.isNone_none,
       Bool.not_false]
     omega
